@@ -450,6 +450,11 @@ impl BloomFilter {
         }
 
         let num_words = num_longs as usize;
+        // A non-empty image carries the bit count and the whole bit array after its 24-byte
+        // header: check that before allocating an array sized by a field of the image.
+        if !is_empty && bytes.len().saturating_sub(32) / 8 < num_words {
+            return Err(Error::insufficient_data("bit_array"));
+        }
         let mut bit_array = vec![0u64; num_words].into_boxed_slice();
         let num_bits_set;
 
@@ -468,19 +473,15 @@ impl BloomFilter {
 
             // Handle "dirty" state: 0xFFFFFFFFFFFFFFFF indicates bits need recounting
             const DIRTY_BITS_VALUE: u64 = 0xFFFFFFFFFFFFFFFF;
-            if raw_num_bits_set == DIRTY_BITS_VALUE {
-                num_bits_set = bit_array.iter().map(|w| w.count_ones() as u64).sum();
-            } else {
-                let raw_num_words_set = raw_num_bits_set.div_ceil(64) as usize;
-                if raw_num_words_set > num_words {
-                    return Err(Error::deserial(format!(
-                        "invalid num_bits_set: expected <= {}, got {}",
-                        num_words * 64,
-                        raw_num_bits_set
-                    )));
-                }
-                num_bits_set = raw_num_bits_set;
+            // bits_used() is maintained incrementally from this value (and invert() subtracts it
+            // from the capacity), so it must be the true population count.
+            let actual_bits_set: u64 = bit_array.iter().map(|w| w.count_ones() as u64).sum();
+            if raw_num_bits_set != DIRTY_BITS_VALUE && raw_num_bits_set != actual_bits_set {
+                return Err(Error::deserial(format!(
+                    "invalid num_bits_set: the bit array has {actual_bits_set} bits set, got {raw_num_bits_set}"
+                )));
             }
+            num_bits_set = actual_bits_set;
         }
 
         Ok(BloomFilter {
